@@ -104,7 +104,8 @@ func c22Tokens(tokens []string) string {
 }
 
 func c22IsWriteKind(st int) bool {
-	return st == parser.StmtInsert || st == parser.StmtUpdate || st == parser.StmtDelete || st == parser.StmtReplace
+	return st == parser.StmtInsert || st == parser.StmtUpdate || st == parser.StmtDelete || st == parser.StmtReplace ||
+		st == parser.StmtDDL || st == parser.StmtLoad // rejected for read-only users (C21)
 }
 
 // statement kinds handled without a plan other than SHOW: not followed end to end
